@@ -342,6 +342,14 @@ where
             self.buffer.block.set_position(cpos);
         }
 
+        // The position within the block comes from the caller (e.g., an index): it must lie within the block data.
+        if usize::from(upos) > self.buffer.block.data().len() {
+            return Err(io::Error::new(
+                io::ErrorKind::InvalidInput,
+                "invalid virtual position: the uncompressed offset is beyond the block data",
+            ));
+        }
+
         self.buffer.block.data_mut().set_position(usize::from(upos));
 
         Ok(pos)
